@@ -814,8 +814,8 @@ def worker(ctx):
             batch.append({'t': t, 'v': v, 'n': n})
             if len(batch) >= 60:
                 run_cases(ctx, batch)
-                if rnd == 0 and ctx.shard == 0:
-                    for c in batch[:2]:
+                if not ctx.samples:
+                    for c in batch[:1]:
                         ps = TEMPLATES[c['t']][1](c['v'], c['n'])
                         ctx.sample({'case': c, 'probe': ps[0]})
                 batch = []
@@ -824,6 +824,9 @@ def worker(ctx):
                     break
         if batch and completed:
             run_cases(ctx, batch)
+            if not ctx.samples:
+                c = batch[0]
+                ctx.sample({'case': c, 'probe': TEMPLATES[c['t']][1](c['v'], c['n'])[0]})
         if not completed:
             break
         if rnd == 0:
